@@ -35,6 +35,10 @@ def diagnose_roundtrip(case, cfgd, cfg, T, v_norm, d, r2):
         consistent = True
     elif not lib_ok and exp[0] == "ok" and "eof_partial" in exp[3]:
         consistent = True
+    elif exp[0] == "unsupported":
+        # the model cannot read this input (e.g. % with a negative operand in a length): the bitwise criterion
+        # below has to decide on its own
+        consistent = lib_ok
     if not consistent:
         return "roundtrip-mismatch"
     if len(d) == len(dm):
@@ -195,6 +199,10 @@ def check_case(ctx, case, rng):
             try:
                 obj = lib.build(T, top, v, enum_members=rng.random() < 0.7)
             except Exception as e:  # noqa: BLE001
+                if isinstance(e, UnicodeDecodeError) and gen.has_union(top):
+                    # building a union from one member left a wchar member of it undecodable: not a value
+                    ctx.event("skipped:constructed-union-with-undecodable-wchar-member")
+                    continue
                 ctx.violation("construct", f"construction-raises:{type(e).__name__}",
                               case_detail(case, cfg=cfgd, value=model.clean(v), error=lib.exc_sig(e)))
                 continue
